@@ -280,13 +280,17 @@ def render_class(c: dict, indent: str, imports: ref.Imports, here: str) -> list[
 
 
 def render_enum(e: dict, indent: str, imports: ref.Imports) -> list[str]:
-    imports.add("enum", e.get("base", "Enum"))
-    out = [f"{indent}class {e['name']}({e.get('base', 'Enum')}):"]
+    base = e.get("base", "Enum")
+    imports.add("enum", base)
+    # e["mixin"]: a data type mixed in before the enum base ('class Color(str, Enum)'), values then have that type
+    head_bases = f"{e['mixin']}, {base}" if e.get("mixin") else base
+    out = [f"{indent}class {e['name']}({head_bases}):"]
     inner = indent + IND
     out += render_doc(e.get("doc"), inner)
     for i, v in enumerate(e["variants"]):
         vals = e.get("values")
-        out.append(f"{inner}{v} = {vals[i] if vals else i + 1}")
+        default_val = repr(f"v{i + 1}") if e.get("mixin") == "str" else i + 1
+        out.append(f"{inner}{v} = {vals[i] if vals else default_val}")
     if e.get("raw_body"):
         out += [f"{inner}{ln}" for ln in e["raw_body"]]
     if not e["variants"] and not e.get("doc") and not e.get("raw_body"):
